@@ -2,6 +2,7 @@ package main
 
 import (
 	"context"
+	"encoding/binary"
 	"encoding/json"
 	"errors"
 	"flag"
@@ -543,9 +544,109 @@ func init() {
 			}(i, s)
 		}
 		wg.Wait()
+		// the proxy between UDP virtual connections and a UDP upstream: datagrams of growing and shrinking sizes
+		udpRuns := 0
+		for k, sizes := range [][]int{growing(16, 640, 40), append(growing(640, 16, 20), growing(16, 1400, 20)...), {64, 64, 64, 2048, 64, 4000, 16}} {
+			tr, err := runProxyUDP(sizes, k)
+			if err != nil {
+				errs = append(errs, err.Error())
+				continue
+			}
+			lw.Write(tr)
+			udpRuns++
+		}
 		if err := lw.Close(); err != nil {
 			return err
 		}
-		return writeJSON(*sum, map[string]any{"runs": len(scens), "errors": errs, "bytes_relayed_up": bytesRelayed, "samples": samples})
+		return writeJSON(*sum, map[string]any{"runs": len(scens), "udp_runs": udpRuns, "errors": errs, "bytes_relayed_up": bytesRelayed, "samples": samples})
 	})
+}
+
+func growing(from, to, n int) []int {
+	out := make([]int, n)
+	for i := range out {
+		out[i] = from + (to-from)*i/(n-1)
+	}
+	return out
+}
+
+// runProxyUDP: one client's datagrams through the real servePacket loop and the real proxy handler to a UDP upstream
+// on loopback; the upstream records what arrives. Judged by P6: every datagram arrives once, whole, in order.
+func runProxyUDP(sizes []int, idx int) (map[string]any, error) {
+	up, err := net.ListenPacket("udp", "127.0.0.1:0")
+	if err != nil {
+		return nil, err
+	}
+	defer up.Close()
+	type got struct {
+		Seq    int  `json:"seq"`
+		N      int  `json:"n"`
+		Intact bool `json:"intact"`
+	}
+	var mu sync.Mutex
+	var recv []got
+	go func() {
+		buf := make([]byte, 65536)
+		for {
+			n, _, err := up.ReadFrom(buf)
+			if err != nil {
+				return
+			}
+			g := got{Seq: -1, N: n}
+			if n >= 12 && string(buf[:3]) == "VDG" {
+				c, seq, size := int(buf[3]), int(binary.BigEndian.Uint32(buf[4:])), int(binary.BigEndian.Uint32(buf[8:]))
+				g.Seq, g.Intact = seq, n == size
+				for i := 12; i < n && i < size; i++ {
+					if buf[i] != vh.DgByte(c, seq, i) {
+						g.Intact = false
+					}
+				}
+			}
+			mu.Lock()
+			recv = append(recv, g)
+			mu.Unlock()
+		}
+	}()
+	rec := vh.NewRecorder(nil)
+	pc := vh.NewFakePC(rec)
+	ctx, cancel := caddy.NewContext(caddy.Context{Context: context.Background()})
+	defer cancel()
+	routes := []map[string]any{{"handle": []map[string]any{{"handler": "proxy", "upstreams": []map[string]any{{"dial": []string{"udp/" + up.LocalAddr().String()}}}}}}}
+	b, _ := json.Marshal(routes)
+	srv := &layer4.Server{MatchingTimeout: caddy.Duration(5 * time.Second)}
+	if err := json.Unmarshal(b, &srv.Routes); err != nil {
+		return nil, err
+	}
+	if err := srv.Provision(ctx, zap.NewNop()); err != nil {
+		return nil, err
+	}
+	go layer4.VerifServePacket(srv, pc)
+	for i, size := range sizes {
+		pc.Inject(1, i+1, size)
+		time.Sleep(2 * time.Millisecond)
+	}
+	for k := 0; k < 300; k++ {
+		mu.Lock()
+		n := len(recv)
+		mu.Unlock()
+		if n >= len(sizes) {
+			break
+		}
+		time.Sleep(5 * time.Millisecond)
+	}
+	time.Sleep(20 * time.Millisecond)
+	pc.Close()
+	mu.Lock()
+	defer mu.Unlock()
+	sent := make([]map[string]int, len(sizes))
+	for i, sz := range sizes {
+		if sz < vh.DgMin {
+			sz = vh.DgMin
+		}
+		sent[i] = map[string]int{"seq": i + 1, "n": sz}
+	}
+	if recv == nil {
+		recv = []got{}
+	}
+	return map[string]any{"id": fmt.Sprintf("proxy:udp:%d", idx), "udp": map[string]any{"sent": sent, "recv": recv}}, nil
 }
